@@ -97,7 +97,7 @@ SITES = {
   ("start_rejects_while_running_before_touching_state", "internal/search/search.go", r"func \(s \*Search\) StartSearch\(",
    [r"if !s\.isRunning\.TryAcquire\(1\)\s*\{[^}]*return\s*\}", r"s\.initSemaphore\.Acquire", r"s\.currentPosition = &p", r"s\.searchLimits = &sl", r"s\.stopFlag = util\.NewBool\(false\)", r"go s\.run\(&p, &sl\)", r"s\.initSemaphore\.Acquire", r"s\.initSemaphore\.Release\(1\)"], []),
   ("run_releases_semaphores", "internal/search/search.go", r"func \(s \*Search\) run\(",
-   [r"defer func\(\) \{\s*s\.isRunning\.Release\(1\)", r"s\.initSemaphore\.Release\(1\)", r"s\.stopFlag\.Store\(true\)", r"s\.sendResult\(searchResult\)"], [r"s\.isRunning\.TryAcquire"]),
+   [r"released := false\s*defer func\(\) \{\s*if !released \{\s*s\.isRunning\.Release\(1\)", r"s\.initSemaphore\.Release\(1\)", r"s\.lastSearchResult = searchResult\s*s\.hasResult = true", r"s\.stopFlag\.Store\(true\)", r"released = true\s*s\.isRunning\.Release\(1\)\s*s\.sendResult\(searchResult\)"], [r"s\.isRunning\.TryAcquire"]),
   ("timer_bound_to_its_search", "internal/search/search.go", r"func \(s \*Search\) startTimer\(",
    [r"stop := s\.stopFlag", r"go func\(\)", r"s\.loadTimeLimit\(\)\+s\.loadExtraTime\(\) && !stop\.Load\(\)", r"time\.Sleep\(5 \* time\.Millisecond\)", r"stop\.Store\(true\)"], [r"s\.stopFlag\.Store", r"s\.stopFlag = "]),
   ("stop_sets_token_and_waits", "internal/search/search.go", r"func \(s \*Search\) StopSearch\(",
